@@ -170,6 +170,22 @@ def run(job):
         shutil.rmtree(tmp, ignore_errors=True)
 
 
+def run_tests(job):
+    """does the repository's own test suite notice the mutant?  (the interesting survivors are those it does not)"""
+    rel, qual, props, idx, kind, src_tree = job
+    t, desc = mutate(src_tree, qual, idx, kind)
+    tmp = tempfile.mkdtemp(prefix="amt_", dir="/dev/shm")
+    try:
+        shutil.copytree("/repo", tmp, dirs_exist_ok=True, ignore=shutil.ignore_patterns("__pycache__", ".git", "*.pyc"))
+        open(os.path.join(tmp, "src", rel), "w").write(ast.unparse(t))
+        env = dict(os.environ, PYTHONPATH=os.path.join(tmp, "src"), PYTHONDONTWRITEBYTECODE="1")
+        p = subprocess.run(["/venv/bin/python", "-m", "pytest", "-x", "-q", "-p", "no:cacheprovider", "--timeout=300",
+                            "--ignore=test/test_pytss.py", "test"], env=env, cwd=tmp, capture_output=True, text=True)
+        return rel, qual, desc, p.returncode, (p.stdout.strip().splitlines() or [""])[-1]
+    finally:
+        shutil.rmtree(tmp, ignore_errors=True)
+
+
 def main():
     flt = sys.argv[1] if len(sys.argv) > 1 else ""
     jobs = []
@@ -214,18 +230,30 @@ def main():
                 jobs2.append((rel, qual, ALL, j[3], j[4], j[5]))
                 break
     true_surv = []
+    jobs3 = []
     with ThreadPoolExecutor(max_workers=8) as ex:
-        for r in ex.map(run, jobs2):
+        for j2, r in zip(jobs2, ex.map(run, jobs2)):
             if r is None:
                 continue
             rel, qual, kind, desc, res = r
             fired = [c for c, v in res.items() if v]
             (true_surv if not fired else []).append((f"{rel.split('/', 1)[1]}:{qual}", desc))
+            if not fired:
+                jobs3.append(j2)
             if fired:
                 print(f"  elsewhere {rel.split('/', 1)[1]}:{qual}: {desc} -> {' '.join(fired)}")
     print(f"\nsurvivors of all 20 checks ({len(true_surv)}):")
     for key, desc in sorted(true_surv):
         print(f"  {key}: {desc}")
+    if os.environ.get("AUTOMUTATE_TESTS", "1") == "1":
+        quiet = []
+        with ThreadPoolExecutor(max_workers=16) as ex:
+            for rel, qual, desc, rc, last in ex.map(run_tests, jobs3):
+                if rc == 0:
+                    quiet.append((f"{rel.split('/', 1)[1]}:{qual}", desc, last))
+        print(f"\n... of which the repository's test suite does not notice either ({len(quiet)}):")
+        for key, desc, last in sorted(quiet):
+            print(f"  {key}: {desc}    [{last}]")
 
 
 if __name__ == "__main__":
